@@ -164,6 +164,12 @@ def main():
                     ck.violation({"engine": "frames", "module": m, "rate": rate, "format": fmt, "numvoc": numvoc, "mode": mode, "script": script,
                                   "broken": "sanitizer / crash during playback", "stderr": r.stderr[-2000:]}, key="frames-crash:%s" % m)
                     continue
+                vw = out[2].split()     # "V maxvoc vchans ntracks"
+                # hypothesis of the voice invariant: virtual channels enabled, or no new-note actions (the library's own
+                # mode choice guarantees the latter; a forced player mode on a table without background channels does not)
+                inv_applies = (int(vw[2]) > int(vw[3])) or mode == -1
+                if not inv_applies:
+                    ck.cov["engines"].setdefault("frames", {})["runs_without_invariant_hypothesis"] = ck.cov["engines"].setdefault("frames", {}).get("runs_without_invariant_hypothesis", 0) + 1
                 cw = out[1].split()
                 fr = Fraction(float.fromhex(cw[4])) * Fraction(float.fromhex(cw[5]))
                 finp = [out[0], "C %s %s %s %d %d" % (cw[1], cw[2], cw[3], fr.numerator, fr.denominator)]
@@ -198,7 +204,7 @@ def main():
                     if res.endswith("BYTES"):
                         ck.violation(dict(case, frame_index=i, frame_info=" ".join(w[1:15]), broken="buffer_size in bytes exceeds XMP_MAX_FRAMESIZE"),
                                      key="buffer-bytes-exceed-XMP_MAX_FRAMESIZE")
-                    if i < len(vo) and vo[i] == "0":
+                    if inv_applies and i < len(vo) and vo[i] == "0":
                         ck.violation(dict(case, frame_index=i, table=vinp[i][:400], broken="monitor invb (voice-table invariant, Model/Voices.v) on the implementation's tables during playback"),
                                      key="voices-inv:%s:%s" % (m, mode))
                         break
